@@ -162,3 +162,67 @@ func VfH_C13_split() {
 type fixedRuneFontmap struct{}
 
 func (fixedRuneFontmap) ResolveFace(r rune) *font.Face { return vfFaces[int(r)&1] }
+
+// ---- C07: matched brackets follow their context ----
+
+// H-C07-delims: the paired-delimiter table as the search and the open/close convention need it:
+// strictly sorted; lookupDelimIndex agrees with a linear scan for EVERY rune; and the parity convention
+// (even index = opening, odd = closing character of the same pair) agrees with the bracket data of
+// golang.org/x/text/unicode/bidi (BidiBrackets.txt) wherever that data knows the character.
+func VfH_C07_delims() {
+	for i := 1; i < len(pairedDelims); i++ {
+		vfAssert(pairedDelims[i-1] < pairedDelims[i], "paired delimiter table is not strictly sorted")
+	}
+	r := vfRune("r")
+	got := lookupDelimIndex(r)
+	want := -1
+	for i, d := range pairedDelims {
+		want = vfIteInt(d == r, i, want)
+	}
+	vfAssert(got == want, "lookupDelimIndex differs from a linear scan of the table")
+	for i, d := range pairedDelims {
+		p, _ := bidi.LookupRune(d)
+		if p.IsBracket() {
+			vfAssert(p.IsOpeningBracket() == (i%2 == 0), "paired delimiter table: an opening bracket sits at an odd index (or a closing one at an even index)")
+		}
+	}
+	vfCover("found", got >= 0)
+	vfCover("missing", got < 0)
+	vfReach("end")
+}
+
+// H-C07-brackets: in a text with one opening and one matching closing bracket (in that order) around and
+// between Latin and Hebrew letters, the closing bracket is placed in a run of the script its opening
+// bracket was placed in.
+func VfH_C07_brackets() {
+	pairs := [...][2]rune{{'(', ')'}, {'[', ']'}, {0x300C, 0x300D}, {0x3010, 0x3011}, {0xFF08, 0xFF09}, {0x2E28, 0x2E29}}
+	pair := pairs[vfChoice("pair", len(pairs))]
+	n := 3 + vfChoice("textLen", 3) // 3..5 runes
+	open := vfChoice("openAt", n-1)
+	closeAt := open + 1 + vfChoice("closeAfter", n-1-open)
+	text := make([]rune, n)
+	letters := [...]rune{'a', 0x05D0}
+	for i := range text {
+		switch i {
+		case open:
+			text[i] = pair[0]
+		case closeAt:
+			text[i] = pair[1]
+		default:
+			text[i] = letters[vfChoice("letter", 2)]
+		}
+	}
+	in := Input{Text: text, RunStart: 0, RunEnd: n, Direction: di.DirectionLTR, Size: 64, Language: "en"}
+	var seg Segmenter
+	out := seg.Split(in, fixedRuneFontmap{})
+	scriptAt := func(pos int) language.Script {
+		for _, run := range out {
+			if run.RunStart <= pos && pos < run.RunEnd {
+				return run.Script
+			}
+		}
+		return 0
+	}
+	vfAssert(scriptAt(closeAt) == scriptAt(open), "a closing bracket is not placed with the script of its opening bracket")
+	vfReach("end")
+}
